@@ -159,7 +159,10 @@ pub fn run_cup(p: &Profile, cfg: &RunCfg) -> (RunOut, MonOut) {
         for e in 0..n {
             let key = format!("x#{e}");
             let mut w = lock(&world);
-            let mutation = w.draws.draw(&format!("{key}/mut"), 22);
+            let mutation = w.draws.draw(&format!("{key}/mut"), 24);
+            // a handler is stateful in principle: sometimes the authentic exchange is verified
+            // first and the tampered one right after it on the same handler
+            let authentic_first = mutation != 0 && w.draws.draw(&format!("{key}/authentic_first"), 3) == 0;
             let mut breaking: Option<bool> = Some(mutation != 0); // None = oracle decides alone
             let mut meta = ex[e].meta.clone();
             let mut body = ex[e].resp_body.clone();
@@ -341,12 +344,42 @@ pub fn run_cup(p: &Profile, cfg: &RunCfg) -> (RunOut, MonOut) {
                         "retained_request_extended".into()
                     }
                 }
-                _ => {
+                21 => {
                     body.extend_from_slice(b" ");
                     "body_extended".into()
                 }
+                _ => {
+                    // a further ':'-separated field appended to an authentic ETag (inside the wrapper)
+                    if let Some(t) = etag.as_mut() {
+                        let junk: &[u8] = [&b":"[..], &b":00"[..], &b":junk"[..], &b"::"[..]][w.draws.draw(&format!("{key}/append"), 4) as usize];
+                        if t.ends_with(b"\"") {
+                            let q = t.pop().unwrap();
+                            t.extend_from_slice(junk);
+                            t.push(q);
+                        } else {
+                            t.extend_from_slice(junk);
+                        }
+                    }
+                    "appended_field".into()
+                }
             };
             drop(w);
+            if authentic_first {
+                let e0 = &ex[e];
+                if let Some(t) = &e0.etag {
+                    if let Ok(hv) = http::HeaderValue::from_bytes(t) {
+                        let resp0 = http::Response::builder().status(200).header("etag", hv).body(e0.resp_body.clone()).unwrap();
+                        let r0 = {
+                            let _g = SutGuard::enter();
+                            handler.verify_response(&e0.meta, &resp0, e0.key_id)
+                        };
+                        mon.count("R3.authentic_verified_first");
+                        if r0.is_err() {
+                            mon.viol(pr, "R3", &key, "the library rejects an authentic exchange".to_string());
+                        }
+                    }
+                }
+            }
             // ---- the library decides
             let mut builder = http::Response::builder().status(200);
             let mut header_ok = true;
